@@ -336,8 +336,71 @@ def write_training_file(path, passwords, encoding, raw=None):
         f.write(data)
 
 
-def train(passwords, opts, rule="R", raw=None, uuid_seed=0, filename="train.txt"):
-    """runs the real trainer on the scratch disk; returns TrainResult(ok, exc, cap, rule_dir, stdout)"""
+class FaultyDisk:
+    """the disk under the rules directory for one training: the `file_k`-th rules file opened for writing fails its
+    `write_j`-th write (or, write_j == 0, its close) with EIO, `times` times in a row; afterwards the disk is healthy
+    again.  Only codecs.open in write mode below `root` is affected; reads are never touched."""
+
+    def __init__(self, root, file_k, write_j, times):
+        self.root = os.path.abspath(root)
+        self.file_k, self.write_j, self.left = file_k, write_j, times
+        self.opened = 0
+        self.fired = 0
+        self.fired_on = None
+        self.real_open = None
+
+    def open(self, filename, mode="r", *a, **kw):
+        f = self.real_open(filename, mode, *a, **kw)
+        if "w" not in mode or not os.path.abspath(str(filename)).startswith(self.root + os.sep):
+            return f
+        self.opened += 1
+        if self.opened < self.file_k or self.left <= 0:
+            return f
+        return _FaultyFile(f, self, filename)
+
+
+class _FaultyFile:
+    def __init__(self, f, disk, name):
+        self._f, self._disk, self._name, self._writes = f, disk, name, 0
+
+    def _fail(self):
+        import errno
+        self._disk.left -= 1
+        self._disk.fired += 1
+        self._disk.fired_on = os.path.relpath(str(self._name), self._disk.root)
+        raise OSError(errno.EIO, "Input/output error (injected)")
+
+    def write(self, data):
+        self._writes += 1
+        if self._disk.left > 0 and self._disk.write_j and self._writes == self._disk.write_j:
+            self._f.write(data[: len(data) // 2])       # a short write, then the error
+            self._fail()
+        return self._f.write(data)
+
+    def close(self):
+        self._f.close()
+        if self._disk.left > 0 and self._disk.write_j == 0 and self._writes:
+            self._writes = 0
+            self._fail()
+
+    def __enter__(self):
+        return self
+
+    def __exit__(self, et, ev, tb):
+        if et is None:
+            self.close()
+        else:
+            self._f.close()
+        return False
+
+    def __getattr__(self, name):
+        return getattr(self._f, name)
+
+
+def train(passwords, opts, rule="R", raw=None, uuid_seed=0, filename="train.txt", write_fault=None):
+    """runs the real trainer on the scratch disk; returns TrainResult(ok, exc, cap, rule_dir, stdout).
+    write_fault = (file_k, write_j, times): see FaultyDisk; the result carries .disk"""
+    import codecs
     import lib_trainer.config_file as cfgmod
     import lib_trainer.run_trainer as rt
     from lib_trainer.trainer_file_output import create_rule_folders
@@ -358,6 +421,18 @@ def train(passwords, opts, rule="R", raw=None, uuid_seed=0, filename="train.txt"
     cfgmod.uuid = SeededUuid(uuid_seed)
     _CAP[0] = cap
     out = guesser.Sink(keep=True)
+    res.disk = None
+    res.slept = 0.0
+    real_sleep = None
+    real_codecs_open = codecs.open
+    if write_fault is not None:
+        res.disk = FaultyDisk(rdir, *write_fault)
+        res.disk.real_open = real_codecs_open
+        codecs.open = res.disk.open
+        # (a retry loop may wait between attempts: the wait costs simulated time only)
+        import time as _time
+        real_sleep = _time.sleep
+        _time.sleep = lambda secs: setattr(res, "slept", res.slept + float(secs))
     try:
         with guesser.streams(out, guesser.Sink()):
             if not create_rule_folders(rdir):
@@ -371,6 +446,9 @@ def train(passwords, opts, rule="R", raw=None, uuid_seed=0, filename="train.txt"
                     import traceback
                     res.exc = traceback.format_exc()
     finally:
+        codecs.open = real_codecs_open
+        if real_sleep is not None:
+            _time.sleep = real_sleep
         _CAP[0] = None
         cfgmod.uuid = saved_uuid
     res.stdout = out.text()
